@@ -1,4 +1,4 @@
-import os, re
+import os, re, threading
 import core
 from checks.generic import COMMON_TRUSTED, compile_gen, first_index
 
@@ -56,7 +56,24 @@ def run(ctx):
         else:
             ctx.obligations.append(("gen:c15_cache_is_transactional", False, "the harness wrote no probed connection settings"))
             ctx.broken.append(("obligation", "gen:ConstsC15.v", "work/C15/gen/ConstsC15.v missing or rejected"))
+        # the profile pairs are a case file of their own, compiled while CasesC15.v is evaluated
+        pbox = {}
+        pfile = os.path.join(ctx.work, "CasesC15p.v")
+        pth = None
+        if os.path.exists(pfile):
+            pth = threading.Thread(target=lambda: pbox.update(r=ctx.coqc(pfile, timeout=1800)))
+            pth.start()
         res = ctx.eval_cases(os.path.join(ctx.work, "CasesC15.v"), "CasesC15.v")
+        if pth is not None:
+            pth.join()
+        pres = {}
+        prc, pout = pbox.get("r", (1, "the harness wrote no CasesC15p.v"))
+        if prc == 0:
+            for m in re.finditer(r"^(\w+) =\s*(.*?)\n\s*: ", pout, re.S | re.M):
+                pres[m.group(1)] = " ".join(m.group(2).split())
+        else:
+            ctx.obligations.append(("corr:CasesC15p.v", False, "case file rejected"))
+            ctx.broken.append(("correspondence", "CasesC15p.v", pout[-2000:]))
         if res is not None:
             n = res.get("c15_ncases", "?")
             for name, label, idxfile in CASES:
@@ -75,8 +92,8 @@ def run(ctx):
                 ctx.broken.append(("correspondence", name, {"label": label, "first_mismatch": first, "indices": (mism or "")[:400]}))
             # the content of the profile: (saved, loaded) pairs of the real SaveUserProfile / LoadUserProfile in the
             # representation of Model/Profile.v; model prediction canon (gob_roundtrip saved) = canon loaded
-            pm = res.get("c15_profile_mismatches")
-            npairs = res.get("c15_profile_npairs", "?")
+            pm = pres.get("c15_profile_mismatches")
+            npairs = pres.get("c15_profile_npairs", "?")
             plabel = "(saved, loaded) profile pairs through the real SaveUserProfile / LoadUserProfile (primary and cache): canon (gob_roundtrip saved) = canon loaded (Model/Profile.v)"
             plines = []
             pp = os.path.join(ctx.work, "CasesC15p.idx")
@@ -90,13 +107,13 @@ def run(ctx):
                 ctx.broken.append(("correspondence", "c15_profile_mismatches",
                                    {"label": plabel, "first_mismatch": plines[i] if i is not None and i < len(plines) else None, "indices": (pm or "")[:400]}))
             # ... and the property's own conclusion on the observation: canon saved = canon loaded
-            pv = first_index(res.get("c15_profile_violating") or "[]")
+            pv = first_index(pres.get("c15_profile_violating") or "[]")
             if pv is not None:
                 ctx.hits.append({"key": "C15:model-oracle:profile-content-changed",
                                  "oracle": "the canonical content (Model/Profile.v canon, evaluated inside Coq) of the profile handed to SaveUserProfile and of what LoadUserProfile returned for that user",
                                  "what": "a stored profile was not read back with the content that was saved (c15_profile_roundtrip)",
                                  "case": {"pair": plines[pv] if pv < len(plines) else None, "case_index": pv},
-                                 "observed": {"class": "profile-content-changed", "pairs": (res.get("c15_profile_violating") or "")[:200]}})
+                                 "observed": {"class": "profile-content-changed", "pairs": (pres.get("c15_profile_violating") or "")[:200]}})
             # round 2: a mismatching history on which the OBSERVATION violates the property is a failing input
             viol = res.get("c15_violating") or "[]"
             lines = []
